@@ -784,6 +784,7 @@ func compileAssignStmt(context *funcContext, stmt *ast.AssignStmt) { // {{{
 	code := context.Code
 	lennames := len(stmt.Lhs)
 	reg, acs := compileAssignStmtLeft(context, stmt)
+	valuebase := reg
 	reg, acs = compileAssignStmtRight(context, stmt, reg, acs)
 
 	for i := lennames - 1; i >= 0; i-- {
@@ -806,7 +807,7 @@ func compileAssignStmt(context *funcContext, stmt *ast.AssignStmt) { // {{{
 				opcode = OP_SETTABLEKS
 			}
 			code.AddABC(opcode, acs[i].ec.reg, acs[i].keyrk, acs[i].valuerk, sline(ex))
-			if !opIsK(acs[i].valuerk) {
+			if !opIsK(acs[i].valuerk) && acs[i].valuerk >= valuebase {
 				reg -= 1
 			}
 		}
